@@ -24,11 +24,11 @@ RULE = ('random sequential architectures of Conv1d (stride/dilation/padding), Av
         'rules on the same / another model, plain and raising calls on the same model object, then the checked call), '
         'a tenth register Softsign/Tanhshrink/Hardswish/Hardtanh with the library rule; half exact mode, half '
         'co-simulation mode; non-trivial = some activation whose two halves differ on a unit, or an affine '
-        'model whose example differs from a reference; cases with some 0 < |delta_in| <= 1e-4 are '
+        'model whose example differs from a reference; cases with some 1e-7 <= |delta_in| <= 1e-5 are '
         'excluded and counted (hist key "band-excluded")')
 ASSUMPTIONS = ['floating-point rounding is not modelled: every comparison is 1e-9 relative to the largest entry '
                'of the compared vector',
-               'the 1e-6 switch band is excluded (0 < |delta_in| <= 1e-4), not verified',
+               'the band 1e-7 <= |delta_in| <= 1e-5 around the 1e-6 switch is excluded, not verified; below it the ordinary derivative is demanded, above it the secant slope',
                'the forward values (in, out) of each activation and its ordinary derivative are torch\'s own',
                'torch autograd dispatches the registered hooks as documented (exercised by every case)']
 
